@@ -371,9 +371,13 @@ class C14(ArfProp):
     pid = "C14"
     coq_targets = ["Props/C14.vo"]
     level_text = ("Coq theorems over the MODELLED lowering of the two async fns (Model/TokioAsync.v: one await in one loop, future = Start | "
-                  "AtAwait(view)): c14_poll_refines (one poll of the translated async body refines the abstract async loop on the unread bytes), "
-                  "c14_pending_invisible (driving polls to completion under ANY placement of Pending equals the blocking loop on the schedule "
-                  "with Pending removed: same result, unread bytes, reader state; hence C02, C06, C12 transfer), c14_pending_only_from_reader. "
+                  "AtAwait(view); prefix and suffix re-translated from the source on every run, GenEq/Tk_*): c14_same_loop (the translated blocking "
+                  "loop body = async prefix; blocking read; async suffix), c14_pending_invisible (driven to completion under ANY placement of "
+                  "Pending and any cancellation the async fn equals the loop in which the reader is polled until ready: same result, buffer, "
+                  "reader state), c14_blocking_is_read_frame + c14_async_equals_blocking (that loop IS the translated blocking "
+                  "FixedBuf::read_frame run against the std::io::Read obtained by polling the AsyncRead until ready, for readers that leave the "
+                  "buffer alone when they deliver nothing; hence C02, C06, C12 transfer), c14_pending_keeps_bytes (a Pending poll leaves indices "
+                  "and unread bytes untouched; the only suspension point is the reader's Pending). "
                   "Tie: real futures polled by hand with Waker counting; every subset of reader polls answered Pending for short scenarios; the "
                   "blocking FixedBuf methods run on the same chunks in the same process as the oracle.")
     nontrivial_rule = ("every composition of every short stream into chunks x EVERY subset of reader polls answered Pending, random larger scenarios "
